@@ -346,7 +346,9 @@ func (v Val) JSONValue() logparse.JV {
 	if err != nil {
 		return logparse.JV{Kind: "errstr"}
 	}
-	jv, err := logparse.DecodeValue(b)
+	// a json.Marshaler / json.RawMessage may hand over strings with bytes that are not UTF-8;
+	// encoding/json lets them pass, the record must still decode with each of them as U+FFFD
+	jv, err := logparse.DecodeValue([]byte(FFFD(string(b))))
 	if err != nil {
 		return logparse.JV{Kind: "errstr"}
 	}
